@@ -86,6 +86,13 @@ def run(ctx):
     cases = []
     for _ in range(N):
         a = rand_tree(rng, maxdepth=rng.choice([1, 2, 3, 4]))
+        # many children carry the very bindings of their parent (and then share the parent's dict OBJECT, see below)
+        def inherit(n):
+            for k in n[8]:
+                if rng.random() < 0.4:
+                    k[7] = copy.deepcopy(n[7])
+                inherit(k)
+        inherit(a)
         b = copy.deepcopy(a); gen.strip_ids(b)
         kind = rng.choice(["equal", "equal-shuffled", "edit", "edit", "edit"])
         desc = kind
@@ -98,6 +105,12 @@ def run(ctx):
     for a, b, exp, desc in cases:
         impl.reset()
         na, nb = impl.build(a), impl.build(b)
+        for root_ in (na, nb):
+            # what add_child / from_xml produce: a child whose map equals its parent's holds the parent's dict object
+            for nd in _walk(root_):
+                for ch in nd.children:
+                    if list(ch.nsmap.items()) == list(nd.nsmap.items()) and rng.random() < 0.7:
+                        ch.nsmap = nd.nsmap
         try:
             r1 = Node.is_equal(na, nb)
         except Exception as e:
